@@ -584,6 +584,9 @@ for (label, op), ctx, level in itertools.product(REFUSED.items(), ('batch', 'upd
             bad.append('%s (%s, %s level) was not refused' % (label, ctx, level))
         if calls:
             bad.append('%s inside an open %s (%s level): the queued change was announced before the batch ended: %r' % (label, ctx, level, calls))
+        o.a = 1.5; o.a = 1                 # the batch is still open: later changes wait for its end as well
+        if calls:
+            bad.append('after %s was refused inside an open %s (%s level) the batch no longer holds changes back: %r' % (label, ctx, level, calls))
     if ctx == 'batch':
         with param.parameterized.batch_call_watchers(o):
             body()
